@@ -75,7 +75,11 @@ struct MemReader : public FileReader {
 
 struct MemDisk : public DiskInterface {
   map<string, string> files;
-  TimeStamp Stat(const string& path, string* err) const override { return files.count(path) ? 1 : 0; }
+  // (headers are newer than everything else: a statement whose discovered dependency changed)
+  TimeStamp Stat(const string& path, string* err) const override {
+    if (!files.count(path)) return 0;
+    return path.size() > 2 && path.compare(path.size() - 2, 2, ".h") == 0 ? 2 : 1;
+  }
   bool MakeDir(const string&) override { return true; }
   bool WriteFile(const string& path, const string& contents, bool) override { files[path] = contents; return true; }
   Status ReadFile(const string& path, string* contents, string* err) override {
@@ -157,8 +161,16 @@ static void RunDepfileLoad(const string& in) {
   disk.files["a.c"] = "";
   disk.files["a"] = "";
   disk.files["a.d"] = in;
+  disk.files["x.h"] = "";
   DependencyScan scan(&state, nullptr, nullptr, &disk, nullptr, nullptr);
-  if (scan.RecomputeDirty(state.LookupNode("b"), nullptr, &err)) g_counts->accepted++; else g_counts->rejected++;
+  if (scan.RecomputeDirty(state.LookupNode("b"), nullptr, &err)) {
+    g_counts->accepted++;
+    // what a build does next: the plan walks every input of every statement it wants
+    Plan plan;
+    string perr;
+    plan.AddTarget(state.LookupNode("b"), &perr);
+    for (Edge* e : state.edges_) for (Node* n : e->inputs_) if (n->path().empty()) abort();
+  } else g_counts->rejected++;
 }
 
 static void RunDyndep(const string& in) {
@@ -476,9 +488,13 @@ static vector<Format> Formats() {
                {"include ", "subninja ", "build.ninja", "./build.ninja", "sub/../build.ninja", ".//build.ninja", "g", "./g", "h", "./h", "f", "\n",
                 "rule r\n  command = c\n", "build x: r\n", "$\n", " "},
                RunManifest});
+  // version declarations: what follows `ninja_required_version = ` / `ninja_dyndep_version = ` is parsed as numbers
+  f.push_back({"version_lines", {"ninja_required_version = ", "ninja_dyndep_version = ", "1", ".", "x", "$x", "\n", "-", " ", "99999999999999999999",
+                                 "build out: dyndep\n", "rule r\n  command = c\n"},
+               [](const string& in) { RunManifest(in); RunDyndep(in); }});
   f.push_back({"rule_vars", {"x", "|", "$command", "$description", "$depfile", " ", "$out", "${command}", "$in"}, RunRuleVars});
   f.push_back({"depfile", {"a", " ", "\\", "#", "$", ":", "\n", "\r", string(1, '\0'), "\x80", "%", "\t"}, RunDepfile});
-  f.push_back({"depfile_load", {"a", " ", "\\", "#", "$", ":", "\n", "\r", "b", "./a", "a.c", "x.h"}, RunDepfileLoad});
+  f.push_back({"depfile_load", {"a", " ", "\\", "#", "$", ":", "\n", "\r", "b", "./a", "a.c", "x.h", "./x.h", "x.h ./x.h"}, RunDepfileLoad});
   f.push_back({"dyndep",
                {"ninja_dyndep_version = 1\n", "ninja_dyndep_version = 1.0\n", "ninja_dyndep_version = 2\n", "build out: dyndep",
                 " | ", "in2", " out2", "\n", "  restat = 1\n", "build ", "out", ":", " dyndep", "$", "$\n", "#c\n", "x = 1\n",
